@@ -1,2 +1,86 @@
-(* Props/C15.v — placeholder while the proofs are being written. *)
-From PV Require Import Base.Prelude MaildirFS.FS MaildirFS.UidList MaildirFS.Ops.
+(* Props/C15.v — Maildir state survives restart and crashes without UID damage.
+   Only statements, each closed by [exact] and followed by Print Assumptions.
+
+   Vocabulary (MaildirFS/Spec.v): [serves m f v uid key fl c] — a server
+   started on filesystem m serves in folder f, under UIDVALIDITY v, message
+   uid from the file with maildir key [key], flag letters fl, content c;
+   [legal_ops_b lay m l] — every operation of l is, in the state it is
+   applied to, one of the kinds of operation the backend performs (decided by
+   MaildirFS/Legal.v and evaluated on every real trace by the correspondence
+   run); [after_crash lay m l k] — the filesystem left by a process killed
+   after the first k operations of l; [touched l key] — some operation of l
+   renames or unlinks the file with that key (STORE, MOVE, EXPUNGE of that
+   very message). *)
+From PV Require Import Base.Prelude Base.Decimal MaildirFS.FS MaildirFS.UidList MaildirFS.Ops
+  MaildirFS.Spec MaildirFS.Legal MaildirFS.Examples
+  MaildirFS.UidListProofs MaildirFS.DurabilityProofs MaildirFS.LegalProofs MaildirFS.CrashProofs.
+
+(* a completely written uid list is always readable: parse (print u) = u *)
+Theorem C15_uidlist_roundtrip : forall u,
+  wf_uidl u = true -> parse_uidl (print_uidl u) = Ok u.
+Proof. exact uidl_roundtrip. Qed.
+Print Assumptions C15_uidlist_roundtrip.
+
+Theorem C15_subscriptions_roundtrip : forall names,
+  wf_subs names = true -> parse_subs (print_subs names) = names.
+Proof. exact subs_roundtrip. Qed.
+Print Assumptions C15_subscriptions_roundtrip.
+
+(* the decision procedure used on the real traces is sound *)
+Theorem C15_legal_b_sound : forall m o, legal_b m o = true -> legal m o.
+Proof. exact legal_b_sound. Qed.
+Print Assumptions C15_legal_b_sound.
+
+(* control files are never left unreadable, at any crash point: every uid list
+   on disk parses to a list whose uids are distinct and below its counter;
+   and a maildir key never names two delivered files *)
+Theorem C15_control_files_readable : forall lay m l k,
+  Inv m -> legal_ops_b lay m l = true -> Inv (after_crash lay m l k).
+Proof. exact crash_inv. Qed.
+Print Assumptions C15_control_files_readable.
+
+(* every message served before (in particular every acknowledged APPEND /
+   COPY / MOVE result and every acknowledged flag change) is served after a
+   kill at any point with the same UIDVALIDITY, uid, flags and content, unless
+   an executed operation renames or removes that message's own file *)
+Theorem C15_acked_messages_survive : forall lay m l k f v uid key fl c,
+  legal_ops_b lay m l = true ->
+  serves m f v uid key fl c -> ~ touched (crash k l) key ->
+  serves (after_crash lay m l k) f v uid key fl c.
+Proof. exact crash_serves. Qed.
+Print Assumptions C15_acked_messages_survive.
+
+(* no uid is assigned to a different message: between two crash points
+   j <= k of one run a folder keeps its UIDVALIDITY, its next-uid counter never
+   decreases and exceeds every uid recorded, and a uid recorded at both points
+   names the same maildir key *)
+Theorem C15_uid_never_reassigned : forall lay m l j k f u u' uid key key',
+  Inv m -> legal_ops_b lay m l = true -> (j <= k)%nat ->
+  uidl_at (after_crash lay m l j) f u -> uidl_at (after_crash lay m l k) f u' ->
+  recorded u uid key -> recorded u' uid key' ->
+  key = key' /\ u_val u' = u_val u /\ (u_next u <= u_next u')%N /\ (uid < u_next u)%N.
+Proof. exact crash_uid_one_key. Qed.
+Print Assumptions C15_uid_never_reassigned.
+
+(* ... and the file a key names is never rewritten by a legal operation *)
+Theorem C15_files_never_rewritten : forall lay m o m' f key i c f' i' c',
+  Inv m -> legal m o -> apply_op lay m o = Some m' ->
+  file_at m f key i c -> file_at m' f' key i' c' -> c = c'.
+Proof. exact legal_step_content. Qed.
+Print Assumptions C15_files_never_rewritten.
+
+(* open finding C15-F1: a kill between taking and releasing a lock leaves the
+   lock file; a restarted server refuses the folder (NO [TIMEOUT]) although a
+   message had been acknowledged; it is served once the lock has expired *)
+Theorem C15_refuted_stale_lock :
+  Nat.leb ex_first_len 13 = true
+  /\ recover_folder (ex_state 13) [] = VLocked
+  /\ served_cids (recover_folder (expire_locks (ex_state 13)) []) = [1%N].
+Proof. exact stale_lock_witness. Qed.
+Print Assumptions C15_refuted_stale_lock.
+
+(* the hypotheses above are satisfiable: the example history is legal *)
+Theorem C15_example_legal :
+  legal_ops_b LPlus ex_fs0 ex_ops = true /\ length ex_ops = 34%nat.
+Proof. exact ex_legal. Qed.
+Print Assumptions C15_example_legal.
